@@ -182,6 +182,8 @@ def tsx(n):
         return '(while %s %s)' % (tsx(a[0]), tsx_block(a[1]))
     if k == 'for':
         return '(for %s %s %s %s)' % (a[0], tsx(a[1]), tsx(a[2]), tsx_block(a[3]))
+    if k == 'foreach':
+        return '(foreach %s %s %s)' % (a[0], tsx(a[1]), tsx_block(a[2]))
     if k == 'break':
         return '(break)'
     if k == 'continue':
